@@ -412,9 +412,21 @@ where
                 // Second priority, sending regular packets
                 packet = self.packet_send_queue.recv() => {
                     let packet = packet.ok_or_else(|| e!(RunError::HandleDropped))?;
-                    self.send_packet(packet)
-                        .await
-                        .map_err(|err| e!(RunError::PacketSend, err))?;
+                    match self.send_packet(packet).await {
+                        Ok(()) => {}
+                        // The datagram was sent by another client. If our own sink refuses it
+                        // (empty or too large once re-framed) drop it, instead of letting that
+                        // client end this connection.
+                        Err(WriteFrameError::Stream {
+                            source:
+                                err @ (RelaySendError::ExceedsMaxPacketSize { .. }
+                                | RelaySendError::EmptyPacket { .. }),
+                            ..
+                        }) => {
+                            debug!("dropping packet that cannot be forwarded: {err:#}");
+                        }
+                        Err(err) => return Err(e!(RunError::PacketSend, err)),
+                    }
                 }
                 // Last priority, sending other message
                 message = self.message_send_queue.recv() => {
